@@ -3,7 +3,7 @@
     through this function.  Decoding glue only; no proofs. *)
 From Coq Require Import ZArith List Bool.
 From PV Require Import Flat Bytes BinFmt RWQc Sched Proto.
-From PV Require Import RunC07 RunC08 RunC09 RunC10 RunC11 RunC12 RunC16 RunC18 RunC19 RunC20.
+From PV Require Import RunC07 RunC08 RunC09 RunC10 RunC11 RunC12 RunC15 RunC16 RunC18 RunC19 RunC20.
 Import ListNotations.
 Open Scope Z_scope.
 
@@ -123,6 +123,7 @@ Definition runners : list (Z -> list Z -> option (list Z)) :=
   ; run_c10
   ; run_c11
   ; run_c12
+  ; run_c15
   ; run_c16
   ; run_c18
   ; run_c19
